@@ -464,8 +464,15 @@ def rule_loop_exit(ctx):
     ok = sc is not None and re.search(r"njob\s*<\s*1|njob\s*<=\s*0", ast.unparse(sc.node)) is not None
     ctx.check(ok, "director.ServeConfig.__attrs_post_init__", "njob >= 1 enforced", "njob may be < 1: the slot guard can then starve the loop and the infeasibility argument fails", "raises for njob < 1")
     pj = ctx.prog.func("scheduler.Scheduler.pop_next_job")
-    first = pj.node.body[0] if not isinstance(pj.node.body[0], ast.Expr) else pj.node.body[1]
-    ok = isinstance(first, ast.If) and ast.unparse(first.test) == "self.draining" and any(isinstance(s, ast.Return) for s in first.body)
+    early = []
+    for s in pj.node.body:
+        if isinstance(s, (ast.AsyncWith, ast.With)):
+            break
+        if isinstance(s, ast.If) and any(isinstance(x, ast.Return) for x in ast.walk(s)):
+            early.append(ast.unparse(s.test))
+        elif isinstance(s, ast.Return):
+            early.append("<unconditional>")
+    ok = early == ["self.draining"]
     ctx.check(ok, pj.fq, "draining is the only early exit before the poll", "pop_next_job returns None for another reason before consulting the database", "if self.draining: return None", where=ctx.where_of(pj))
 
 
